@@ -15,7 +15,7 @@ func TestMain(m *testing.M) {
 	core.Main(m, "C08", "cases = one Parse/DescribeS/Bind/DescribeP/Execute/Sync pipeline with 0..40 (sometimes up to 2000) parameters, each NULL, empty, arbitrary bytes, or the text/binary rendering of a typed value; parameter format codes in the three admissible shapes (none, one for all, one each); declared parameter OIDs arbitrary; 0..8 result columns over the supported types with result format codes in the admissible shapes; rows of typed values; non-trivial = a NULL or empty parameter, binary format anywhere, the one-code-for-all shape with >= 2 parameters, or differing per-column result formats; distinct = distinct canonical JSON")
 }
 
-var scanTypes = []string{"bool", "int2", "int4", "int8", "float4", "float8", "text", "varchar", "name", "bytea", "uuid", "oid", "date", "timestamp"}
+var scanTypes = []string{"bool", "int2", "int4", "int8", "float4", "float8", "text", "varchar", "name", "bytea", "uuid", "oid", "date", "timestamp", "bpchar", "timestamptz"}
 
 func genCase(t *rapid.T) Case {
 	c := Case{Limit: 1 << 20}
